@@ -131,13 +131,16 @@ class SolutionTracks(Tracks):
             ndim=tracks.ndim,
             features=tracks.features,
         )
-        if force_recompute:
-            soln_tracks.enable_features(
-                [
-                    soln_tracks.features.tracklet_key,  # type: ignore[list-item]
-                    soln_tracks.features.lineage_key,  # type: ignore[list-item]
-                ]
-            )
+        # the track and lineage ids are managed features of every solution: recompute
+        # them if any are missing, otherwise keep the existing ones but still register
+        # and activate them so that edits keep them up to date
+        soln_tracks.enable_features(
+            [
+                soln_tracks.features.tracklet_key,  # type: ignore[list-item]
+                soln_tracks.features.lineage_key,  # type: ignore[list-item]
+            ],
+            recompute=force_recompute,
+        )
         return soln_tracks
 
     @property
